@@ -15,10 +15,10 @@ namespace Asynkit.GenEqC15
 open Asynkit Asynkit.Kernel
 
 /-- the ghost bookkeeping of the Kernel's `taskThrow` event around the outcome of the real function -/
-def ghostThrow (s0 : State) (t : TaskId) : Except ThrowErr State → State × Out
+def ghostThrow (s0 : State) (t : TaskId) : Except (ThrowErr × State) State → State × Out
   | .ok s' => ({ s' with nexc := s0.nexc + 1, thrown := s0.thrown ++ [(t, s0.nexc)] }, .ok)
-  | .error .assertion => ({ s0 with nexc := s0.nexc + 1, err := true }, .kernelError)
-  | .error _ => ({ s0 with nexc := s0.nexc + 1 }, .refused)
+  | .error (.assertion, s') => ({ s' with nexc := s0.nexc + 1, err := true }, .kernelError)
+  | .error (_, s') => ({ s' with nexc := s0.nexc + 1 }, .refused)
 
 theorem current_beq (s : State) (t : TaskId) : (current s == some t) = decide (s.ctx = .inTask t) := by
   unfold current
@@ -41,13 +41,13 @@ theorem taskThrow_eq (s : State) (t : TaskId) (cd : Bool) (hpy : (s.tasks t).py 
   simp [ghostThrow, throwFin, setFutWaiter, removeDoneCallback, callSoon, setTask, setFut, *]
 
 /-- outcome of `_task_reinsert` as the Kernel's `reinsert` event reports it -/
-def ofReinsert (s0 : State) : Except ThrowErr State → State × Out
+def ofReinsert : Except (ThrowErr × State) State → State × Out
   | .ok s' => (s', .ok)
-  | .error _ => (s0, .valueError)
+  | .error (_, s') => (s', .valueError)
 
 /-- `Gen.taskReinsert` (scheduling._task_reinsert) = the Kernel's `reinsert` event, in every state. -/
 theorem taskReinsert_eq (s : State) (t : TaskId) (pos : Nat) :
-    Kernel.reinsert s t pos = ofReinsert s (Gen.taskReinsert s t pos) := by
+    Kernel.reinsert s t pos = ofReinsert (Gen.taskReinsert s t pos) := by
   unfold Kernel.reinsert Gen.taskReinsert
   simp only [queueFindRemove]
   cases hp : popLast (isOf t) s.ready <;> simp [ofReinsert, queueInsertPos]
@@ -60,7 +60,7 @@ theorem taskSwitchPrefix_eq (s : State) (t : TaskId) :
 
 /-- task_throw never raises ValueError -/
 theorem taskThrow_not_valueError (s : State) (t : TaskId) (e : Exc) :
-    Gen.taskThrow s t e ≠ .error .valueError := by
+    ∀ s', Gen.taskThrow s t e ≠ .error (.valueError, s') := by
   unfold Gen.taskThrow
   dsimp only
   repeat' split
@@ -78,13 +78,13 @@ theorem taskThrow_ok_ready (s s1 : State) (t : TaskId) (e : Exc) (h : Gen.taskTh
   all_goals (subst h; exact ⟨_, rfl⟩)
 
 /-- `_task_reinsert` only ever raises ValueError -/
-theorem taskReinsert_err (s : State) (t : TaskId) (pos : Nat) (e : ThrowErr)
-    (h : Gen.taskReinsert s t pos = .error e) : e = .valueError := by
+theorem taskReinsert_err (s s' : State) (t : TaskId) (pos : Nat) (e : ThrowErr)
+    (h : Gen.taskReinsert s t pos = .error (e, s')) : e = .valueError ∧ s' = s := by
   revert h
-  unfold Gen.taskReinsert
+  unfold Gen.taskReinsert queueFindRemove
   dsimp only
-  split <;> intro h <;> cases h
-  rfl
+  cases popLast (isOf t) s.ready <;> simp
+  intro h1 h2; exact ⟨h1.symm, h2.symm⟩
 
 /-- The Kernel's rendering of `await task_interrupt(t, e)` up to its suspension: the `taskThrow`
     event and, if it was accepted, `reinsert t 0` (then `endStep yieldNone`, the suspension itself). -/
@@ -98,26 +98,17 @@ theorem taskInterruptPrefix_eq (s : State) (t : TaskId) (cd : Bool) (hpy : (s.ta
     match Gen.taskInterruptPrefix s t (.intr s.nexc cd) with
     | .ok (s2, susp) =>
       susp = Susp.sleep0 ∧ kernelInterruptPrefix s t cd = ((ghostThrow s t (.ok s2)).1, .ok)
-    | .error e => e ≠ .valueError ∧ kernelInterruptPrefix s t cd = ghostThrow s t (.error e) := by
+    | .error e => e.1 ≠ .valueError ∧ kernelInterruptPrefix s t cd = ghostThrow s t (.error e) := by
   unfold Gen.taskInterruptPrefix kernelInterruptPrefix
   rw [taskThrow_eq s t cd hpy]
   cases hthrow : Gen.taskThrow s t (.intr s.nexc cd) with
   | error e =>
+    obtain ⟨e, se⟩ := e
     have hne : e ≠ .valueError := by
-      intro he; subst he; exact taskThrow_not_valueError _ _ _ hthrow
+      intro he; subst he; exact taskThrow_not_valueError _ _ _ _ hthrow
     refine ⟨hne, ?_⟩
     cases e <;> simp_all [ghostThrow]
   | ok s1 =>
-    simp only [ghostThrow, taskSwitchPrefix_eq]
-    rw [taskReinsert_eq]
-    -- the ghost fields (nexc, thrown) do not interact with the reinsert
-    have hg : Gen.taskReinsert { s1 with nexc := s.nexc + 1, thrown := s.thrown ++ [(t, s.nexc)] } t 0 =
-        (Gen.taskReinsert s1 t 0).map
-          (fun s' => { s' with nexc := s.nexc + 1, thrown := s.thrown ++ [(t, s.nexc)] }) := by
-      unfold Gen.taskReinsert
-      simp only [queueFindRemove]
-      cases popLast (isOf t) s1.ready <;> simp [queueInsertPos, Except.map]
-    rw [hg]
     -- the reinsert cannot fail: the step handle was just queued
     obtain ⟨r, hr⟩ := taskThrow_ok_ready _ _ _ _ hthrow
     have hpop : popLast (isOf t) s1.ready ≠ none := by
@@ -125,15 +116,13 @@ theorem taskInterruptPrefix_eq (s : State) (t : TaskId) (cd : Bool) (hpy : (s.ta
       have := popLast_none.mp h
       rw [hr, List.countP_append] at this
       simp [isOf, taskFromHandle] at this
-    cases hre : Gen.taskReinsert s1 t 0 with
-    | error e =>
-      exfalso
-      revert hre
-      unfold Gen.taskReinsert
-      simp only [queueFindRemove]
-      cases hp : popLast (isOf t) s1.ready with
-      | none => exact absurd hp hpop
-      | some x => simp
-    | ok s2 => simp [Except.map, ofReinsert]
+    simp only [ghostThrow, taskSwitchPrefix_eq]
+    rw [taskReinsert_eq]
+    unfold Gen.taskReinsert
+    simp only [queueFindRemove]
+    -- the ghost fields (nexc, thrown) do not interact with the reinsert
+    cases hp : popLast (isOf t) s1.ready with
+    | none => exact absurd hp hpop
+    | some x => simp [Except.map, ofReinsert, queueInsertPos]
 
 end Asynkit.GenEqC15
